@@ -46,12 +46,12 @@ def _control_worker(case):
         m = Model(n, tabs)
         msgs = []
         i_model = None
-        if not skipff:
+        if True:
             m.add("init")
             for op, tape in zip(hist, tapes):
                 m.add(H.model_cmd(tuple(op), tape))
             m.add(f"op target {target} -")
-            i_model = m.add(f"control {target} {strategy} {opt(maxd)} {','.join(map(str, forb)) or '-'}")
+            i_model = m.add(f"control {target} {strategy} {opt(maxd)} {','.join(map(str, forb)) or '-'} {int(bool(skipff))}")
         # C06: semantic checks on every successful intervention of the real output
         sem = []
         i_min = m.add("mintraps " + "*" * n)
